@@ -8,3 +8,19 @@ CLAIMS["C01"] = dict(
     note="Trusted: Lean kernel + Mathlib; the harness (generator, printer, interpreter); sympy parser/subs and lambdify/autowrap are validated per case, not proved. "
          "Identity of expressions is decided at 3 random rational points per case.",
     technique="Lean 4 induction over event/transition lists (fold = sum) + model/code correspondence")
+CLAIMS["C08"] = dict(
+    text="Proved in Lean for histories of any length and any interleaving of mutators, parameter assignments and evaluations, and for "
+         "any semantics of 'compile then call': in the recompile-flag state machine of add_func / add_compiled_sympy_object / CompileCanary "
+         "(snapshot = definition the generator read + argument list _sp at compile time; parameter values read at call time; ode master) "
+         "every evaluation returns what a freshly constructed model with the same current definition and parameter values returns, "
+         "provided every mutator trips the flags, the param_list/state_list setters refresh _sp, and the evaluator is in the canary's list "
+         "(never_stale; never_stale_source for the source as modelled). For the tree as found the partial theorem (bad mutators only before "
+         "the first evaluation) and concrete stale histories (add_ode after ode; parameter declared after a compile) are proved. "
+         "The model is tied to the code on every run: random histories on the real SimulateOde, all 11 evaluators observed after every step "
+         "against a freshly constructed model (direct oracle) and against the version the Lean driver predicts.",
+    note="The Lean model (Canary.sourceCfg) describes the tree WITH proposed_fixes/C08-add-ode-trip.diff and C08-decl-setters-refresh-sp.diff applied; "
+         "until they are applied ./check C08 reports a VIOLATION on /repo (add_ode, late parameter / state declarations). "
+         "Trusted: Lean kernel; harness generator/replay; pymodel route replay; lambda back-end only; 'fresh model' assigns 0 to a parameter "
+         "never given a value. Recompile pattern and flag dictionary are compared with the model but recorded only (tags). "
+         "DeterministicOde on its own is not covered (it has no compiler object _SC and its canary watches nothing).",
+    technique="Lean 4 invariant over operation histories (induction on the op list, abstract compile semantics) + model/code correspondence + fresh-model oracle")
